@@ -16,7 +16,7 @@ Definition declared_bounds (no_deps : bool) (s : sig) : list toks :=
                          end) (p_items (g_params (s_gen s))) ++
       flat_map (fun w => if wp_is_type w then
                            match wp_bounded w with
-                           | BPath false false 1 first => if String.eqb first name then trait_bounds (wp_bounds w) else []
+                           | BPath false false 1 first => if String.eqb first name then pred_bounds w else []
                            | _ => []
                            end
                          else []) (where_items (s_gen s))
